@@ -35,7 +35,7 @@ def build(u):
 
 def weave_sharded(u, u4, u3):
     from weave import Repl
-    u.text('pub mod sharded {\n' + u4.MOD_HEAD + 'use crate::cache_dir::CacheDir;\nuse crate::cache_dir::*;\nuse crate::trigger::PeriodicTrigger;\n'
+    u.text('pub mod sharded {\n' + u4.MOD_HEAD + 'use crate::cache_dir::CacheDir;\n#[allow(unused_imports)]\nuse crate::benign_error::is_absent_file_error;\nuse crate::cache_dir::*;\nuse crate::trigger::PeriodicTrigger;\n'
            'use crate::std::fs::File;\nuse crate::multiplicative_hash::MultiplicativeHash;\nuse crate::Key;\n'
            'use crate::KISMET_TEMPORARY_SUBDIRECTORY as TEMP_SUBDIR;\nuse ::std::sync::atomic::Ordering::Relaxed;\nuse crate::rand;\n')
     INV = ('C02 C18:valid-on-every-exit', 'final(w).inv()')
@@ -559,6 +559,8 @@ pub open spec fn sharded_frame(old: World, fin: World, root: PathV, n: usize, na
                  'bytes_kept(*old(w), *final(w))'),
                 ('C13 C11 C18:success-means-a-publication-happened' + ('' if opname == 'set' else '-unless-the-key-was-already-bound'),
                  'r.is_ok() ==> final(w).published > old(w).published' + ('' if opname == 'set' else ' || old(w).files.contains_key(%s) || old(w).files.contains_key(%s)' % (P1, P2))),
+                ] + ([] if opname == 'set' else [('C11 C04:put-never-overwrites-an-existing-entry',
+                                                 'r.is_ok() && final(w).hard_faults == old(w).hard_faults && final(w).listed == old(w).listed && (old(w).files.contains_key(%s) || old(w).files.contains_key(%s)) ==> final(w).published == old(w).published' % (P1, P2))]) + [
                 ('C11 C09:a-sharded-cache-never-ends-up-with-two-copies-of-one-key',
                  'final(w).hard_faults == old(w).hard_faults && !(old(w).files.contains_key(%s) && old(w).files.contains_key(%s)) && !old(w).dirs.contains(%s) && !old(w).dirs.contains(%s) '
                  '==> !(final(w).files.contains_key(%s) && final(w).files.contains_key(%s))' % (P1, P2, P1, P2, P1, P2)),
